@@ -1789,6 +1789,15 @@ dt_dtcmp(struct dt_dt_s d1, struct dt_dt_s d2)
 		/* always equal */
 		return -2;
 	}
+	if (d1.typ == DT_SEXY || d1.typ == DT_SEXYTAI) {
+		/* epoch values are one signed count */
+		if (d1.sxepoch < d2.sxepoch) {
+			return -1;
+		} else if (d1.sxepoch > d2.sxepoch) {
+			return 1;
+		}
+		return 0;
+	}
 	/* go through it hierarchically and without upmotes */
 	switch (d1.d.typ) {
 		int res;
